@@ -89,6 +89,7 @@ def work(ctx, tier):
         for e in common.pick_entries(rng, rig.ENTRIES, 2):
             _one(ctx, sc, e, stats)
         ctx.inc("boundary_scenarios")
+    common.crossing_slice(ctx, tier, common.rng_for(ctx, "crossing"), lambda sc, e: _one(ctx, sc, e, stats))
     common.flush_stats(ctx, stats)
 
 
@@ -105,6 +106,7 @@ def conclude(ctx):
         "attempt_numbers_checked": (ctx.cnt["attempt_numbers_checked"], 1000),
         "attempt_numbers_checked_after_a_contained_hook_error": (ctx.cnt["attempt_numbers_checked_after_a_contained_hook_error"], 200),
     }
+    common.crossing_floors(ctx, floors)
     return dict(
         rule=(
             "random scenarios with arbitrary strategy tables (any subset of the 8 classes, default present/absent, legacy/context signatures), return values from "
